@@ -95,7 +95,9 @@ def run_cmds(exe, cmds, timeout=600, env=None):
         if cur is None or cur >= len(outs):
             continue
         k = ln[:1]
-        if k == b"T":
+        if ln.startswith(b"TIMEOUT"):
+            outs[cur] = Out("E", "TIMEOUT: the call did not return in time")
+        elif k == b"T":
             ln_ = int(ln[2:])
             outs[cur] = Out("T", out[pos:pos + ln_])
             pos += ln_ + 1
@@ -113,8 +115,6 @@ def run_cmds(exe, cmds, timeout=600, env=None):
             outs[cur] = Out("R", ln.decode())
         elif k == b"F":
             raise MachineryError("c10_io: " + ln.decode("utf-8", "replace"))
-        elif ln.startswith(b"TIMEOUT"):
-            outs[cur] = Out("E", "TIMEOUT")
     died = None
     if rc != 0 or not finished:
         died = cur if cur is not None else 0
@@ -928,8 +928,12 @@ def prog_cases(exe, cases):
     out, skipped = [], 0
     for grp in vlib.chunks(done, 20):
         cmds = []
-        for c in grp:
-            cmds += ["N 0", blob("S", 0, progs.render_prog(c["prog"])), "P 0"]
+        for c in list(grp):
+            try:
+                cmds += ["N 0", blob("S", 0, progs.render_prog(c["prog"])), "P 0"]
+            except MachineryError:          # a program the shared renderer cannot print (yet): not this check's subject
+                grp.remove(c)
+                skipped += 1
         outs, died, err = run_cmds(exe, cmds + ["D 0"])
         for i, c in enumerate(grp):
             o = outs[3 * i + 2]
